@@ -179,11 +179,14 @@ PROPS = {
                     "checksum is xxh3 of the model's stream; what one glob pattern matches (mvdan/sh expansion) is an oracle",
                     "the harness's copy of the goodRun monitor is tied to the Lean definition by comparing its verdict (g=) on every step"],
         "assumptions": ["status: commands are `test -f`, commands only write their declared files and append to a trace; no deps, "
-                        "no preconditions, no sub-task calls; sources readable; explicit whole-second mtimes"],
+                        "no preconditions, no sub-task calls; sources readable; explicit whole-second mtimes; every sources pattern matches "
+                        "below the task directory (no `..`), so the name hashed with a file (its path relative to t.Dir) is its root-relative "
+                        "path without the `dir/` prefix"],
         "level_text": "Theorems over TaskModel.Finger.invoke (mirror of RunTask / IsTaskUpToDate / Checksum- and TimestampChecker): C04_partial "
                       "(method checksum, pairwise distinct normalised names, histories of any length made of successful runs, runs failing in the "
-                      "command loop, --dry, --status, --force, list/summary queries and arbitrary file edits: skip implies goodRun) and five "
-                      "decide-checked counterexamples to C04_full. Tie: Gen.DryWiring / Gen.FingerOrder tables proved equal to the skeleton the "
+                      "command loop, runs cancelled at the prompt, --dry, --status, --force, list/summary queries and arbitrary file edits: skip "
+                      "implies goodRun), C04_prompt_declined_no_entry / _next_runs (a declined prompt leaves no checksum entry, the next run is "
+                      "not skipped) and decide-checked counterexamples to C04_full (kill, method timestamp, name collision). Tie: Gen.DryWiring / Gen.FingerOrder tables proved equal to the skeleton the "
                       "model was written against; random histories through the real CLI binary compared step by step (exit class, commands run, "
                       "tree incl. .task) with the model; the property monitor skip⇒goodRun evaluated on the real observations.",
         "level_note": "Trusted: Lean kernel; harness canonicalisation (mtimes rebased to a logical clock); hash uninterpreted; glob expansion is an oracle.",
@@ -197,7 +200,9 @@ PROPS = {
         "assumptions": ["as C04; timestamp idempotence under the side condition 'no source newer than the last run'"],
         "level_text": "Theorems: C05_globs (for every pattern list and file set: p ∈ Globs ⇔ the last pattern matching p is positive; result strictly "
                       "sorted), C05_idem (both methods), C05_force, C05_missing_generates, C05_status_fails, C05_detect_checksum (edit/add/remove/"
-                      "rename-in-place change the stream), C05_mtime, and C05_counterexample (directory move) with C05_detect_partial. Tie: "
+                      "rename-in-place change the stream), C05_detect_move / C05_detect_move_op (the hashed name is the path relative to the task dir, "
+                      "injective on matched paths: a move or rename to another path changes the stream), C05_mtime, and "
+                      "C05_counterexample_undelimited (name and content hashed without delimiter) with C05_detect_partial. Tie: "
                       "fingerprint.Globs run in-process on random trees and glob/exclude lists; CLI histories with file operations between runs.",
         "level_note": "Trusted: Lean kernel; harness; glob expansion oracle; hash uninterpreted (HashInj explicit).",
     },
@@ -548,7 +553,11 @@ def _c05(cond):
 
 FINDING_PREDICATES.update({
     # the step that last wrote the stored fingerprint was a run of the same task cancelled at the prompt
-    "C04-prompt-declined-after-fingerprint": _c04(lambda m, f: f.get("wexit") == "cancelled" and f.get("wmode") == "run" and f.get("wtask") == f["task"]),
+    # (method checksum: FIXED by F31, the entry is kept so that a regression is named; method timestamp: open)
+    "C04-prompt-declined-after-fingerprint": _c04(lambda m, f: f.get("method") == "checksum" and f.get("wexit") == "cancelled" and
+                                                  f.get("wmode") == "run" and f.get("wtask") == f["task"]),
+    "C04-timestamp-prompt-declined": _c04(lambda m, f: f.get("method") == "timestamp" and f.get("wexit") == "cancelled" and
+                                          f.get("wmode") == "run" and f.get("wtask") == f["task"]),
     # … or was killed / the most recent attempt at this fingerprint was killed
     "C04-killed-before-last-command": _c04(lambda m, f: (f.get("wexit") == "killed" and f.get("wtask") == f["task"]) or f.get("laexit") == "killed"),
     # method timestamp and the run that last touched the marker (or the last attempt) failed
@@ -564,7 +573,7 @@ FINDING_PREDICATES.update({
     # newer than the marker, which every check — also a skipped one — moves to the time of the check)
     "C04-timestamp-marker-moved-by-every-check": _c04(lambda m, f: f.get("method") == "timestamp" and f.get("gens") == "1" and
                                                       f.get("laexit") == "ok" and f.get("srcnewer") == "1"),
-    # same multiset of (base name, content), different paths
+    # same multiset of (base name, content), different paths (FIXED by F8; kept so that a regression is named)
     "C05-dir-move-not-detected": _c05(lambda m, f: f.get("kind") == "change-not-detected" and f.get("samebases") == "1" and f.get("method") == "checksum"),
     "C05-timestamp-missing-generates": _c05(lambda m, f: f.get("kind") == "missing-generates-skipped" and f.get("method") == "timestamp"),
 })
